@@ -51,7 +51,7 @@ func preparedLimit(script string, vars map[string]lang.Value, noOpt bool, limit 
 	r.E.SetContext(ctx)
 	names := sortedKeys(vars)
 	for _, k := range names {
-		r.E.SetVariable(k, eng.ToObject(vars[k]))
+		r.Give(k, eng.ToObject(vars[k]))
 	}
 	err, pan := r.Prepare(noOpt)
 	if pan != nil {
